@@ -229,7 +229,8 @@ def gen(max_rows=10):
                 rev = list(reversed(src[0]))
                 parts[-1]["terms"] = F.normalize_terms(parts[-1]["terms"] + [rev])
                 if rev not in parts[-1]["terms"]:
-                    parts[-1]["terms"] = [rev] + [t for t in parts[-1]["terms"] if frozenset(F.factor_src(f)[1] for f in t) != frozenset(F.factor_src(f)[1] for f in rev)]
+                    key = lambda t: frozenset(F.factor_src(f)[1] for f in t if f["k"] != "lit")  # noqa: E731
+                    parts[-1]["terms"] = [rev] + [t for t in parts[-1]["terms"] if key(t) != key(rev)]
         if shape in ("twosided", "both", "keywords"):
             lhs = {"intercept": False, "terms": F.normalize_terms([[{"k": "num", "col": draw(st.sampled_from(["y", "x"]))}]] + (parts[0]["terms"][:1] if draw(st.booleans()) else []))}
             parts[0] = lhs
